@@ -1,7 +1,7 @@
 import sys
 pid=sys.argv[1]
-text=open(f'/tmp/seed/{pid}.txt').read()
-wt=f'/tmp/seed/{pid}-wt'; out=f'/tmp/seed/{pid}-out'
+text=open(f'/tmp/seed2/{pid}.txt').read()
+wt=f'/tmp/seed2/{pid}-wt'; out=f'/tmp/seed2/{pid}-out'
 print(f"""You are working in a scratch git worktree of the Rust project icerpc/slicec at {wt} (a compiler front end for the Slice IDL: crates `slicec` (lexer, LALRPOP parsers, preprocessor, AST, patchers, validators, diagnostics, the `slicec` binary in slicec/src/main.rs that drives external code-generator processes) and `slice-codec` (the Slice wire encoding and buffers)). Work ONLY inside {wt} and write results ONLY to {out}. Do not read, list or use anything under /verif, /repo or other /tmp/seed directories (they belong to someone else); there is no network.
 
 Here is a semantic property the project is supposed to satisfy:
@@ -12,7 +12,7 @@ Here is a semantic property the project is supposed to satisfy:
 TASK: produce TWO different, realistic changes to the source under {wt}/slicec/src or {wt}/slice-codec/src (the kind of bug a maintainer could plausibly introduce: an off-by-one, a wrong variable, a missing case, a swapped order, state that is not reset, a check moved after the action it guards, the wrong scope, ...), each of which
  (1) still compiles,
  (2) keeps the existing test suite passing: `cd {wt} && cargo test --workspace --offline 2>&1 | grep -E "^test result|FAILED"` — run it and confirm every line says ok,
- (3) breaks the property above — but only under specific circumstances (a particular input shape, a multi-step sequence, an unusual layout or option, a fault at a particular point, or two sites that each look fine alone), NOT in a way that ordinary use would expose at once. The two changes should touch different mechanisms.
+ (3) breaks the property above — but only under specific circumstances (a particular input shape, a multi-step sequence, an unusual layout or option, a fault at a particular point, or two sites that each look fine alone), NOT in a way that ordinary use would expose at once. The two changes should touch different mechanisms. Prefer mechanisms that are NOT the first thing one would think of: look at the less central code paths the property still depends on (the other files among the anchors, helper functions, rarely used options and element kinds, error and recovery paths, boundary values, interactions between two features).
 For each change give a demonstration that FAILS with the change and PASSES without it: a small Rust integration test file (to be dropped into {wt}/slicec/tests/ or {wt}/slice-codec/tests/; look at the existing tests and tests/test_helpers.rs for how they call the library) or a shell script that runs the built binary ({wt}/target/debug/slicec).
 
 DELIVER in {out}/1/ and {out}/2/ each: `patch.diff` (output of `git diff` of the SOURCE change only — no test files — applicable with `git apply` on the clean worktree HEAD), the demonstration file (`demo_test.rs` or `demo.sh`), and `README.md` (which clause of the property it breaks, what exactly is needed for it to manifest, the commands you ran and what they printed with and without the patch). Verify each patch applies cleanly on a clean tree (`git stash` or `git checkout -- .` first). When done leave the worktree clean (`git checkout -- .` and delete untracked demo files) and reply with a 5-line summary per change. Budget: about 40 minutes.""")
